@@ -136,6 +136,7 @@ def nonfinite_float_literal(s, depth=0, keys_only=False, nan_only=False):
 
 # ------------------------------------------------------------------ schema sources
 HASHABLE_KEYS = ["'k'", "0", "1", "-7", "True", "None", "b'k'", "''", "1.5", "(1, 2)", "()", "('a', (1, None))",
+                 "(1,)", "('a',)", "('a', ('b',))", "((),)", "(None,)",
                  "2**70", "'\\n'", "'\"'", "frozenset()", "-0.5", "'é'"]
 
 BOUNDARY = [s for s in gen.LEAF_SCHEMAS if "alias" not in s] + [
